@@ -109,7 +109,10 @@ SetPars(ev, names) ==
                              ELSE [c |-> names[i], v |-> [k |-> "g", n |-> N(ev, names[i], 0)]]]
 SendGate(ev, desc) == IF Has(ev, "send_gate") THEN ev["send_gate"].n # 0 ELSE desc.gate
 \* the messages one event sends when played at time t (logical) with latency lat; ref names the node
-B(t, cmd, ref, name, act, grp, pars) == [t |-> t, cmd |-> cmd, ref |-> ref, name |-> name, act |-> act, grp |-> grp, pars |-> pars]
+\* fz ("fuzzy time"): the bundle's time involves the default legato 0.8, which is not dyadic - the real float time is within
+\* an ulp of the lattice point, so its order relative to other bundles of the *same* lattice time is not decided
+B(t, cmd, ref, name, act, grp, pars) == [t |-> t, cmd |-> cmd, ref |-> ref, name |-> name, act |-> act, grp |-> grp, pars |-> pars, fz |-> FALSE]
+DefaultLegato(ev) == ~Has(ev, "sustain") /\ ~Has(ev, "legato")
 GateOff == <<[c |-> "gate", v |-> [k |-> "g", n |-> 0]]>>
 \* an item of an event stream: the event e, its kind ty (note, mono_on, mono_set, mono_off), the node reference
 \* of a Pmono voice, the names of the controls a mono_set updates, whether the voice has a gate, and dU >= 0 when
@@ -121,14 +124,14 @@ WithDelta(it, d) == [it EXCEPT !.dU = d]
 Emit(it, t, lat, ref) ==
     LET ev == it.e IN
     IF it.ty = "mono_off" THEN          \* release of a voice, possibly delayed (articulated Pmono: after the sustain)
-         (IF it.gate THEN <<B(t + lat + N(ev, "_delayU", 0), "/n_set", it.mono, "", 0, 0, GateOff)>>
-          ELSE <<B(t + lat + N(ev, "_delayU", 0), "/n_free", it.mono, "", 0, 0, <<>>)>>)
+         (IF it.gate THEN <<[B(t + lat + N(ev, "_delayU", 0), "/n_set", it.mono, "", 0, 0, GateOff) EXCEPT !.fz = Has(ev, "_fz")]>>
+          ELSE <<[B(t + lat + N(ev, "_delayU", 0), "/n_free", it.mono, "", 0, 0, <<>>) EXCEPT !.fz = Has(ev, "_fz")]>>)
     ELSE IF IsRest(ev) THEN <<>>
     ELSE IF it.ty = "mono_set" THEN <<B(t + lat, "/n_set", it.mono, "", 0, 0, SetPars(ev, it.names))>>
     ELSE LET desc == Descs[Instr(ev)]
              new == B(t + lat, "/s_new", IF it.ty = "mono_on" THEN it.mono ELSE ref, Instr(ev), ActionNo(ev), Group(ev), Pars(ev, desc)) IN
          IF it.ty = "note" /\ SendGate(ev, desc)
-         THEN <<new, B(t + lat + SustainU(ev), "/n_set", ref, "", 0, 0, GateOff)>>
+         THEN <<new, [B(t + lat + SustainU(ev), "/n_set", ref, "", 0, 0, GateOff) EXCEPT !.fz = DefaultLegato(ev)]>>
          ELSE <<new>>
 
 (* ---------------------------------------------------------------- (iii) patterns of events ---- *)
@@ -189,7 +192,9 @@ ArticLoop(evs, desc, i, act, names, k, base, out) ==
                    ArticLoop(evs, desc, i + 1, ref, nm, k + 1, base, Append(out, Item(e, "mono_on", ref, nm, desc.gate, 0 - 1)))
               ELSE ArticLoop(evs, desc, i + 1, 0, names, k, base, Append(out, Note(e)))
          ELSE LET set == Item(e, "mono_set", act, names, desc.gate, 0 - 1) IN
-              IF ~slur THEN ArticLoop(evs, desc, i + 1, 0, names, k, base, out \o <<Release(act, desc.gate, SustainU(e)), set>>)
+              IF ~slur THEN ArticLoop(evs, desc, i + 1, 0, names, k, base,
+                                      out \o <<IF DefaultLegato(e) THEN [Release(act, desc.gate, SustainU(e)) EXCEPT !.e = Merge(@, [x \in {"_fz"} |-> V(1)])]
+                                               ELSE Release(act, desc.gate, SustainU(e)), set>>)
               ELSE IF rest THEN ArticLoop(evs, desc, i + 1, 0, names, k, base, out \o <<Release(act, desc.gate, 0), set>>)
               ELSE ArticLoop(evs, desc, i + 1, act, names, k, base, Append(out, set))
 \* Ppar: children merged by absolute time; the queue is FIFO among equal times (entries <<time, stamp, child>>)
